@@ -435,7 +435,7 @@ def load_corpus():
 
 def run(ctx):
     cases = load_corpus()
-    for _ in range(ctx.n(12, 500)):
+    for _ in range(ctx.n(12, 160)):
         cases.append(gen_case(ctx.rng))
     reqs, metas = [], []
     for c in cases:
